@@ -252,7 +252,7 @@ def c_cp_finalize(c, ns, ig):
             flat == [(j, o) for j, n in enumerate(ns) for o in range(n)])
 
 
-@contract("coverpoint.coverage_ev", ["C10", "C12"],
+@contract("coverpoint.coverage_ev", ["C10", "C12", "C13"],
           ["vsc.model.coverpoint_model.CoverpointModel.coverage_ev", "vsc.model.coverpoint_model.CoverpointModel.get_bin_hits"],
           lambda tier, seed: [(n, bt) for n in (1, 2, 3, 4) for bt in ("Bins", "Ignore", "Illegal")])
 def c_cp_coverage_ev(c, n, bt):
